@@ -107,6 +107,19 @@ theorem paddedExtrema_reverse (w : Nat) (m : Mode) (x : Sig) :
     paddedExtrema w m false x.reverse = (paddedExtrema w m false x).mirror x.length :=
   paddedExtrema_reverse' w m x
 
+/-- With parabolic refinement the statement is false (and not demanded by the property, whose quantifier ranges over
+    padding widths, not over the refinement flag): for `x = [0,2,1,3,2]` the refined peaks sit at `7/6, 19/6`; one
+    round of padding gives `-5/6 … 31/6`, which ends the loop (`31/6 ≥ 5`, `-5/6 < 0`), whereas the mirror image
+    `-7/6 … 29/6` of the reversed signal does not (`29/6 < 5`) and is padded once more.
+    The real `get_padded_extrema` does the same on this input (corpus case of stream `extrema`). -/
+theorem paddedExtrema_reverse_parabolic_witness :
+    ∃ (x : Sig) (w : Nat),
+      paddedExtrema w .peaks true x = .ok [-5/6, 7/6, 19/6, 31/6] [49/24, 49/24, 73/24, 73/24] ∧
+      paddedExtrema w .peaks true x.reverse =
+        .ok [-19/6, -7/6, 5/6, 17/6, 29/6, 41/6] [73/24, 73/24, 73/24, 49/24, 49/24, 49/24] ∧
+      paddedExtrema w .peaks true x.reverse ≠ (paddedExtrema w .peaks true x).mirror x.length :=
+  ⟨[0, 2, 1, 3, 2], 1, by decide +kernel, by decide +kernel, by decide +kernel⟩
+
 /-! ## 5. `interp_envelope` -/
 
 /-- `c > 0`, homogeneous interpolant: every envelope of `c • x` is `c` times that of `x`
